@@ -29,7 +29,7 @@ def instrument(node, ctl, enable_on_open=True):
 
     def flush_utxo_db(flush_data):
         real_utxo(flush_data)
-        ctl.mark('utxo_committed', flush_data.state.height)
+        ctl.mark('utxo_committed', (flush_data.state.height, flush_data.state.tip))
 
     def flush_dbs(flush_data, flush_utxos, size_remaining):
         ctl.mark('flush_begin', 'full' if flush_utxos else 'history_only')
@@ -86,6 +86,8 @@ def run_node_phase(db_dir, world, coin, reorg_limit, flush_plan, ctl, lat=(), sc
                     out['crashed'] = True
                 else:
                     out['error'] = str(e)
+                    st = node.db.state
+                    out['stuck_at'] = (st.height, st.tip) if st is not None else None
         finally:
             if ctl.dead:
                 # process death: nothing more runs; drop the task without a clean shutdown
@@ -167,7 +169,13 @@ def reopen_and_observe(db_dir, coin, reorg_limit, model_for_height, ctl=None, db
 
 def committed_heights(marks):
     '''[(index of the commit op, height)] from a crash-free controller's marks.'''
-    return [(count - 1, payload) for count, label, payload in marks if label == 'utxo_committed']
+    return [(count - 1, payload[0]) for count, label, payload in marks
+            if label == 'utxo_committed']
+
+
+def committed_tips(marks):
+    return [(count - 1, payload[1]) for count, label, payload in marks
+            if label == 'utxo_committed']
 
 
 def flush_spans(marks):
